@@ -397,6 +397,14 @@ def simplify_unitary(expr: e.Expr, t_name: str,
             # would be 1 and the remaining index (and its sum) would be lost
             if idx1 == idx2 and all(idx_counter[s] == 2 for s in idx1):
                 continue
+            # the delta is already part of the term: delta * delta = delta
+            # removes one occurrence of both indices, which turns an index
+            # that occurs twice from a contracted into a target index if the
+            # target indices are determined with the Einstein sum convention
+            if term.provided_target_idx is None and \
+                    any(o.sympy == delta for o in obj) and \
+                    any(idx_counter[s] == 2 for s in delta.idx):
+                continue
 
             # lower the exponent of the 2 unitary tensors and
             # add the created delta to the term
